@@ -19,7 +19,7 @@ func init() {
 		Level:      "exploration",
 		Jitter:     true,
 		RaceSample: true,
-		Rule: "tie-rich query (1-6) and target (1-40) sets of width 8-300: targets derived from queries by substitutions drawn from a small shared pool, duplicates, the same column masked by N in one target and by a compatible 2-fold code in another (equal distance, different completeness), equal completeness (file-order ties), all-N / all-gap / heavily ambiguous targets at first, middle and last file position; measures raw/snp/tn93; n in {plain,1,2,3,|T|,|T|+3}; d in {none, an occurring distance, between two, 0}; table on/off; threads {0,1,2,16}; " +
+		Rule: "tie-rich query (1-6) and target (1-40) sets of width 8-300: targets derived from queries by substitutions drawn from a small shared pool, duplicates, the same column masked by N in one target and by a compatible 2-fold code in another (equal distance, different completeness), equal completeness (file-order ties), all-N / all-gap / heavily ambiguous targets at first, middle and last file position, disjoint-coverage groups (queries resolved in one half of the columns, several targets resolved only in the other half with different completeness, mixed into the list or alone); measures raw/snp/tn93; n in {plain,1,2,3,|T|,|T|+3}; d in {none, an occurring distance, between two, 0}; table on/off; threads {0,1,2,16}; without -d every plain run is repeated as -n 1 and every -n 1 run as plain and the two must name the same target per query; " +
 			"distinct non-trivial = distinct (measure, n kind, d kind, tie pattern, undefined-target position, capacity-boundary replacement) tuples",
 		Assumptions: []string{"without -d, whether an undefined-distance target may fill spare capacity after all defined ones, and what is printed for it, is unspecified: only 'never displaces a defined one' is judged; with -d an undefined distance is not within D and must not be returned",
 			"tn93 order is checked with tolerance 1e-9*max(1,|d|); tie-break rules for tn93 only between targets with identical count tuples"},
@@ -157,6 +157,40 @@ func c06Inputs(r *fw.Rng, measure string) ([]gen.FastaRec, []c06Target, string) 
 			s = string(b)
 		}
 		ts = append(ts, c06Target{rec: gen.FastaRec{ID: fmt.Sprintf("t%d", i), Desc: fmt.Sprintf("t%d", i), Seq: s}, idx: i, comp: model.Completeness(s)})
+	}
+	if W >= 8 && r.Chance(0.12) {
+		// disjoint coverage: queries resolved only in the first half of the columns (the rest N) and a
+		// few targets resolved only in the second half, with different numbers of masked columns: their
+		// distance to those queries is undefined under raw and tn93 although neither side is empty, and
+		// their completeness differs. Mixed into the target list, or the only targets there are.
+		h := W / 2
+		masked := false
+		for i := range qs {
+			if r.Chance(0.7) || (i == len(qs)-1 && !masked) {
+				qs[i].Seq = qs[i].Seq[:h] + strings.Repeat("N", W-h)
+				masked = true
+			}
+		}
+		var us []c06Target
+		for k := r.Range(2, 5); k > 0; k-- {
+			b := []byte(strings.Repeat("N", h) + base[h:])
+			for m := r.Intn(W - h); m > 0; m-- {
+				b[h+r.Intn(W-h)] = 'N'
+			}
+			us = append(us, c06Target{rec: gen.FastaRec{ID: fmt.Sprintf("u%d", k), Desc: fmt.Sprintf("u%d", k), Seq: string(b)}})
+		}
+		if r.Chance(0.4) {
+			ts = us
+		} else {
+			for _, u := range us {
+				at := r.Intn(len(ts) + 1)
+				ts = append(ts[:at], append([]c06Target{u}, ts[at:]...)...)
+			}
+		}
+		for j := range ts {
+			ts[j].idx, ts[j].comp = j, model.Completeness(ts[j].rec.Seq)
+		}
+		undefPos = "several"
 	}
 	if r.Chance(0.2) {
 		// one target carries the name of a query: names never enter the order
@@ -580,6 +614,45 @@ func runC06(c *fw.Ctx, idx int) fw.Result {
 			}
 			if strings.Join(sn, ";") != obsSNPs[qi] {
 				res.Fail("listed-snps", fmt.Sprintf("query %s: SNP list %q is not that of the returned pair (%q)", qs[qi].ID, obsSNPs[qi], strings.Join(sn, ";")), files, argv)
+			}
+		}
+	}
+	// plain closest equals -n 1: the same target for every query, also where every distance is undefined
+	if D == -1.0 && (plain || n == 1) {
+		var out2 string
+		var err2 error
+		argv2 := []string{"closest", "-m", measure, "-n", "1", "-t", fmt.Sprint(threads)}
+		if plain {
+			out2, err2 = run.ClosestN(1, -1.0, qText, tText, measure, false, threads)
+		} else {
+			out2, err2 = run.Closest(qText, tText, measure, threads)
+			argv2 = []string{"closest", "-m", measure, "-t", fmt.Sprint(threads)}
+		}
+		res.Evals++
+		f2 := map[string]string{"query.fasta": qText, "target.fasta": tText, "observed.csv": out, "observed_other_form.csv": out2}
+		l2 := strings.Split(strings.TrimSuffix(out2, "\n"), "\n")
+		if err2 != nil || len(l2) != len(qs)+1 {
+			res.Fail("error-on-valid-input", fmt.Sprintf("the counterpart run (plain closest / -n 1) failed or wrote %d lines for %d queries: %v", len(l2), len(qs), err2), f2, argv2)
+		} else {
+			for i := range qs {
+				f := strings.Split(l2[i+1], ",")
+				other := ""
+				if len(f) >= 2 {
+					other = f[1]
+				}
+				mine := strings.Join(obsNames[i], ";")
+				res.Count("plain_vs_n1_rows_compared", 1)
+				allUndef := true
+				for j := range ts {
+					allUndef = allUndef && !dist[i][j].def
+				}
+				if allUndef {
+					res.Count("plain_vs_n1_rows_with_every_distance_undefined", 1)
+				}
+				if mine != other {
+					res.Fail("plain-differs-from-n1", fmt.Sprintf("query %s (row %d): plain closest and closest -n 1 name different targets (%q and %q, in the order the two runs were made)", qs[i].ID, i+1, mine, other), f2, argv2)
+					break
+				}
 			}
 		}
 	}
